@@ -113,19 +113,32 @@ fn extract_bracket_expr(pattern: &str) -> Option<(String, &str)> {
     }
 }
 
-/// Converts a POSIX glob into a POSIX Basic Regular Expression
-fn glob_to_regex(pattern: &str) -> Option<String> {
-    let mut regex = String::new();
+/// One element of a translated glob: `*` (any string), or the POSIX Basic
+/// Regular Expression that tests a single character (`.`, an escaped
+/// literal, a bracket expression).
+enum Piece {
+    AnyString,
+    OneChar(String),
+}
+
+/// Converts a POSIX glob into its pieces.
+fn glob_to_pieces(pattern: &str) -> Option<Vec<Piece>> {
+    let mut pieces = Vec::new();
+    let literal = |ch: char| {
+        let mut regex = String::new();
+        regex_push_literal(&mut regex, ch);
+        Piece::OneChar(regex)
+    };
 
     let mut chars = pattern.chars();
     while let Some(ch) = chars.next() {
         // https://pubs.opengroup.org/onlinepubs/9699919799/utilities/V3_chap02.html#tag_18_13
         match ch {
-            '?' => regex.push('.'),
-            '*' => regex.push_str(".*"),
+            '?' => pieces.push(Piece::OneChar(".".to_string())),
+            '*' => pieces.push(Piece::AnyString),
             '\\' => {
                 if let Some(ch) = chars.next() {
-                    regex_push_literal(&mut regex, ch);
+                    pieces.push(literal(ch));
                 } else {
                     // https://pubs.opengroup.org/onlinepubs/9699919799/functions/fnmatch.html
                     //
@@ -139,22 +152,44 @@ fn glob_to_regex(pattern: &str) -> Option<String> {
             }
             '[' => {
                 if let Some((expr, rest)) = extract_bracket_expr(chars.as_str()) {
-                    regex.push_str(&expr);
+                    pieces.push(Piece::OneChar(expr));
                     chars = rest.chars();
                 } else {
-                    regex_push_literal(&mut regex, ch);
+                    pieces.push(literal(ch));
                 }
             }
-            _ => regex_push_literal(&mut regex, ch),
+            _ => pieces.push(literal(ch)),
         }
     }
 
-    Some(regex)
+    Some(pieces)
+}
+
+/// Converts a POSIX glob into a POSIX Basic Regular Expression (the pieces put
+/// together; only the tests look at the whole text).
+#[allow(dead_code)]
+fn glob_to_regex(pattern: &str) -> Option<String> {
+    let pieces = glob_to_pieces(pattern)?;
+    Some(
+        pieces
+            .iter()
+            .map(|piece| match piece {
+                Piece::AnyString => ".*",
+                Piece::OneChar(regex) => regex,
+            })
+            .collect(),
+    )
+}
+
+/// A compiled piece of a glob.
+enum Matcher {
+    AnyString,
+    OneChar(Regex),
 }
 
 /// An fnmatch()-style glob matcher.
 pub struct Pattern {
-    regex: Option<Regex>,
+    matchers: Option<Vec<Matcher>>,
 }
 
 impl Pattern {
@@ -166,14 +201,53 @@ impl Pattern {
             RegexOptions::REGEX_OPTION_NONE
         };
 
-        // As long as glob_to_regex() is correct, this should never fail
-        let regex = glob_to_regex(pattern).map(|r| parse_bre(&r, options).unwrap());
-        Self { regex }
+        // As long as glob_to_pieces() is correct, this should never fail
+        let matchers = glob_to_pieces(pattern).map(|pieces| {
+            pieces
+                .iter()
+                .map(|piece| match piece {
+                    Piece::AnyString => Matcher::AnyString,
+                    Piece::OneChar(regex) => Matcher::OneChar(parse_bre(regex, options).unwrap()),
+                })
+                .collect()
+        });
+        Self { matchers }
     }
 
     /// Test if this pattern matches a string.
+    ///
+    /// The pieces are tried from left to right while the set of positions in
+    /// the string that the pieces so far can reach is kept: no backtracking,
+    /// so a pattern with many `*` costs no more than one with few.
     pub fn matches(&self, string: &str) -> bool {
-        self.regex.as_ref().is_some_and(|r| r.is_match(string))
+        let Some(matchers) = &self.matchers else {
+            return false;
+        };
+        let chars: Vec<&str> = string
+            .char_indices()
+            .map(|(i, ch)| &string[i..i + ch.len_utf8()])
+            .collect();
+        // reach[j]: the pieces so far can match exactly the first j characters.
+        let mut reach = vec![false; chars.len() + 1];
+        reach[0] = true;
+        for matcher in matchers {
+            match matcher {
+                Matcher::AnyString => {
+                    let mut seen = false;
+                    for r in reach.iter_mut() {
+                        seen |= *r;
+                        *r = seen;
+                    }
+                }
+                Matcher::OneChar(regex) => {
+                    for j in (0..chars.len()).rev() {
+                        reach[j + 1] = reach[j] && regex.is_match(chars[j]);
+                    }
+                    reach[0] = false;
+                }
+            }
+        }
+        reach[chars.len()]
     }
 }
 
